@@ -133,7 +133,88 @@ def run_shard(shard):
         if di == lo:
             st.sample({"doc": text, "op": "set", "path": PATHS2[7][1],
                        "value": "z"})
+    if lo == 0:
+        formats_family(st)
     return st
+
+
+FORMAT_DOC = "a: &A old\nb: *A\nc: [*A, x]\nd: old\ne: &E 5\nf: *E\n"
+FORMAT_VALUES = [("BARE", "new", "new"), ("DQUOTE", "new", "new"),
+                 ("SQUOTE", "new", "new"),
+                 ("FOLDED", "new text here", "new text here"),
+                 ("LITERAL", "l1\nl2", "l1\nl2"), ("INT", "12", 12),
+                 ("FLOAT", "1.5", 1.5), ("BOOLEAN", "true", True),
+                 ("DEFAULT", "new", "new")]
+FORMAT_PATHS = [("/a", "a"), ("b", "a"), ("/c[0]", "a"),
+                ("(/a)+(/d)", "ad"), ("/e", "e"), ("/*[.=old]", "ad"),
+                ("/d", "d"), ("(/e)+(/d)", "ed"), ("/**[.=5]", "e")]
+
+
+def formats_family(st):
+    """Every value format of set_value on anchored scalars with aliases: the
+    new value at every alias site, the anchor kept, nothing else touched, and
+    all of it still true after a dump and a strict reload."""
+    from yamlpath import Processor
+    from yamlpath.enums import YAMLValueFormats
+    from vkit.corpus import anchor_of
+    for ptext, touched in FORMAT_PATHS:
+        for fmt, value, want in FORMAT_VALUES:
+            st.evaluations += 1
+            st.transitions += 1
+            st.validated += 1
+            doc = corpus.load(FORMAT_DOC)
+            case = {"doc": FORMAT_DOC, "op": "set-format", "path": ptext,
+                    "segs": None, "value": value, "format": fmt}
+            try:
+                Processor(corpus.LOG, doc).set_value(
+                    ptext, value, value_format=YAMLValueFormats[fmt],
+                    mustexist=True)
+            except Exception as ex:       # pylint: disable=broad-except
+                st.fail("set-format|%s|%s" % (fmt, type(ex).__name__), case,
+                        "the value is set", repr(ex)[:200])
+                continue
+            st.states += 1
+            st.sig("set-format", ptext, fmt)
+            exp = {"a": "old", "b": "old", "c": ["old", "x"], "d": "old",
+                   "e": 5, "f": 5}
+            if "a" in touched:
+                exp["a"] = exp["b"] = want
+                exp["c"] = [want, "x"]
+            if "d" in touched:
+                exp["d"] = want
+            if "e" in touched:
+                exp["e"] = exp["f"] = want
+            bad = None
+            for stage in ("in memory", "after dump and reload"):
+                if stage != "in memory":
+                    try:
+                        doc = corpus.load(editrun.dump(doc))
+                    except Exception as ex:  # pylint: disable=broad-except
+                        bad = "%s: %s" % (stage, type(ex).__name__)
+                        break
+                got = {k: ([_pv(x) for x in v] if isinstance(v, list)
+                           else _pv(v)) for k, v in doc.items()}
+                if got != exp or any(type(got[k]) is not type(exp[k])
+                                     for k in "abdef"):
+                    bad = "%s: data %r" % (stage, got)
+                elif not (doc["a"] is doc["b"] is doc["c"][0]) or \
+                        doc["e"] is not doc["f"]:
+                    bad = "%s: aliases no longer share one node" % stage
+                elif anchor_of(doc["a"]) != "A" or anchor_of(doc["e"]) != "E" \
+                        or anchor_of(doc["d"]):
+                    bad = "%s: anchors %r %r %r" % (
+                        stage, anchor_of(doc["a"]), anchor_of(doc["e"]),
+                        anchor_of(doc["d"]))
+                if bad:
+                    break
+            if bad:
+                st.fail("set-format|%s|%s" % (fmt, bad.split(":")[0]), case,
+                        repr(exp), bad)
+
+
+def _pv(node):
+    val = corpus.plain_scalar(node)
+    return val[1] if isinstance(val, tuple) and len(val) == 2 else val
 
 
 def check_set(st, doc0, text, shp, segs, ptext, value, doc=None):
@@ -351,6 +432,14 @@ def history(seed_index, depth):
 
 def replay(case):
     st = core.Stats(None)
+    if case.get("op") == "set-format":
+        formats_family(st)
+        for lst in st.fails.values():
+            for f in lst:
+                if f["case"]["path"] == case["path"] and \
+                        f["case"]["format"] == case["format"]:
+                    return f
+        return None
     segs = C01.tup(case["segs"])
     if isinstance(case["doc"], dict):
         # a history: rebuild the state before the last step
